@@ -89,9 +89,15 @@ fn main() {
             println!("loom: iters={} panic={:?} capped={}", c.report.iters, c.report.panic, c.report.capped);
             for (o, n) in &c.outcomes {
                 println!("   {}  x{}", fmt_outcome(o), n);
-                if std::env::var("LV_LOGS").is_ok() {
-                    if let Some(r) = c.records.iter().find(|r| &r.results == o) {
-                        println!("        log: {:?}", r.log);
+                if let Ok(mode) = std::env::var("LV_LOGS") {
+                    let mut seen = std::collections::BTreeSet::new();
+                    for r in c.records.iter().filter(|r| &r.results == o) {
+                        if seen.insert(r.log.clone()) {
+                            println!("        log: {:?}", r.log);
+                            if mode != "all" {
+                                break;
+                            }
+                        }
                     }
                 }
             }
